@@ -491,13 +491,9 @@ fn judge(v: &ConstValue, out: &mut Vec<Violation>) -> u64 {
                         }
                     }
                     Ok(_) => {}
-                    Err(_) => {
-                        // the reference could not read the text; judge the statement directly
-                        if *got == want {
-                            // printer and parser share a private convention: the statement's round trip
-                            // holds, the "GraphQL text" half is already reported above.
-                        }
-                    }
+                    // the reference could not read the text: already reported as print-not-a-literal
+                    // (whatever the crate's parser makes of non-GraphQL text is C13's business)
+                    Err(_) => {}
                 }
             }
         }
